@@ -36,13 +36,34 @@ def radius_table():
     return gen_dir()
 
 
+def uff_table():
+    import mofun.uff4mof as u
+    importlib.reload(u)
+    g6 = {"O", "S", "Se", "Te", "Po"}
+    rows = []
+    for name, p in u.UFF4MOF.items():
+        el = name[0:2].strip("_")
+        h = name[2] if len(name) > 2 else "0"
+        rows.append('[name |-> "%s", el |-> "%s", h |-> "%s", theta |-> %d, main |-> %s, g6 |-> %s]' % (
+            name, el, h, round(p[1] * 100), "TRUE" if el in u.MAIN_GROUP_ELEMENTS else "FALSE", "TRUE" if el in g6 else "FALSE"))
+    text = ("---- MODULE UffTable ----\n\\* generated from /repo/mofun/uff4mof.py: type name, element, hybridisation character (third character of the\n"
+            "\\* name, \"0\" if none), natural angle in 0.01 degree, main-group flag, oxygen-group flag\n"
+            "UffTypes == <<\n  " + ",\n  ".join(rows) + "\n>>\n====\n")
+    with open(os.path.join(gen_dir(), "UffTable.tla"), "w") as fh:
+        fh.write(text)
+    return gen_dir()
+
+
 def all_tables():
     mass_table()
     radius_table()
+    uff_table()
     return gen_dir()
 
 
 if __name__ == "__main__":
     print(all_tables())
+
+
 
 
